@@ -59,6 +59,9 @@ func genLin(g *GenCtx) {
 	if g.Thorough() {
 		nq = 30000 / g.Parts
 	}
+	if raceTier {
+		nq /= 4
+	}
 	next := 1
 	for c := 0; c < nq; c++ {
 		capQ := 1 + g.R.Intn(3) // the sequential Spec has no rendezvous, so no unbuffered queues here
